@@ -658,3 +658,239 @@ Proof.
   rewrite log_exp_zone; [rewrite vdist_V0, E; lra | | rewrite E; lra].
   rewrite E. replace (2 * asin cut / 2) with (asin cut) by lra. rewrite sin_asin by apply cut_range. lra.
 Qed.
+
+(* ---------------------------------------------------------------- exp (log q) for negative real part *)
+
+Lemma qneg_involutive (q : Q) : qneg (qneg q) = q.
+Proof. destruct q as [w x y z]. unfold qneg. simpl. f_equal; ring. Qed.
+
+Lemma qnorm2_neg (q : Q) : qnorm2 (qneg q) = qnorm2 q.
+Proof. unfold qnorm2, qneg. simpl. ring. Qed.
+
+Lemma exp_log_neg (q : Q) : qnorm2 q = 1 -> qw q < 0 -> cut < n3 (qvec ROps q) ->
+  rv_to_q ROps (q_to_rv ROps q) = qneg q.
+Proof.
+  intros Hu Hw Hv.
+  rewrite <- (qneg_involutive q) at 1. rewrite double_cover by (simpl; lra).
+  apply exp_log; [now rewrite qnorm2_neg | simpl; lra | now rewrite n3_qvec_neg].
+Qed.
+
+Lemma exp_log_pm (q : Q) : qnorm2 q = 1 -> cut < n3 (qvec ROps q) ->
+  rv_to_q ROps (q_to_rv ROps q) = q \/ rv_to_q ROps (q_to_rv ROps q) = qneg q.
+Proof.
+  intros Hu Hv. destruct (Rlt_dec (qw q) 0) as [Hn|Hp]; [right; now apply exp_log_neg | left; apply exp_log; lra || assumption].
+Qed.
+
+(* ---------------------------------------------------------------- the convention, observably *)
+
+(* the increment is recovered in the GLOBAL frame: (exp(r/2) * q) * conj q = exp(r/2) *)
+Lemma left_convention_sum (q : Q) r : qnorm2 q = 1 -> qmul ROps (qsum_one ROps q r) (qconj ROps q) = rv_to_q ROps r.
+Proof. intros H. unfold qsum_one. now apply qmul_cancel_r. Qed.
+
+Lemma left_convention_diff (e q : Q) : qnorm2 q = 1 -> qdiff_one ROps (qmul ROps e q) q = q_to_rv ROps e.
+Proof. intros H. unfold qdiff_one. now rewrite qmul_cancel_r. Qed.
+
+(* the right (body-frame) convention q * exp(r/2) is a different function: q = j, r = (PI, 0, 0) *)
+Lemma right_convention_differs :
+  let q := mkQR 0 0 1 0 in let r := mkVR PI 0 0 in
+  qnorm2 q = 1 /\ rv_to_q ROps r = mkQR 0 1 0 0 /\
+  qmul ROps (qmul ROps q (rv_to_q ROps r)) (qconj ROps q) = mkQR 0 (-1) 0 0 /\
+  qmul ROps (qmul ROps q (rv_to_q ROps r)) (qconj ROps q) <> rv_to_q ROps r.
+Proof.
+  intros q r. pose proof PI_RGT_0 as Hp. pose proof PI2_1 as H1. unfold PI2 in H1.
+  assert (En : n3 r = PI).
+  { unfold r, n3, ss. simpl. replace (PI * PI + 0 * 0 + 0 * 0) with (PI * PI) by ring. apply sqrt_square. lra. }
+  assert (Er : rv_to_q ROps r = mkQR 0 1 0 0).
+  { rewrite rv_to_q_big by (rewrite En; unfold cut; lra). rewrite En, cos_PI2, sin_PI2. unfold r. simpl. f_equal; field; lra. }
+  assert (Ep : qmul ROps (qmul ROps q (rv_to_q ROps r)) (qconj ROps q) = mkQR 0 (-1) 0 0).
+  { rewrite Er, !qmul_R, qconj_R. unfold q. simpl. f_equal; ring. }
+  repeat split; try assumption.
+  - unfold q, qnorm2. simpl. ring.
+  - rewrite Ep, Er. intros H. injection H. lra.
+Qed.
+
+(* ---------------------------------------------------------------- the eigen-gap of a symmetric set, derived *)
+
+(* u^T M v for M = sum_k w_k q_k q_k^T *)
+Fixpoint bil (l : list (R * Q)) (u v : Q) : R :=
+  match l with
+  | [] => 0
+  | wq :: l' => fst wq * qdot (snd wq) u * qdot (snd wq) v + bil l' u v
+  end.
+
+Lemma bil_sym l u v : bil l u v = bil l v u.
+Proof. induction l; simpl; [reflexivity|]. rewrite IHl. ring. Qed.
+Lemma bil_app l l' u v : bil (l ++ l') u v = bil l u v + bil l' u v.
+Proof. induction l; simpl; [lra|]. rewrite IHl. lra. Qed.
+
+Lemma dot_osum_v l u (v : Q) :
+  qw v * osum_v l u 0 + qx v * osum_v l u 1 + qy v * osum_v l u 2 + qz v * osum_v l u 3 = bil l u v.
+Proof. induction l as [|[x q] l IH]; simpl; [ring|]. rewrite <- IH. unfold qdot. simpl. ring. Qed.
+
+Definition qsubs (u : Q) (al : R) (c : Q) : Q :=
+  mkQR (qw u - al * qw c) (qx u - al * qx c) (qy u - al * qy c) (qz u - al * qz c).
+
+Lemma qdot_qsubs q u al c : qdot q (qsubs u al c) = qdot q u - al * qdot q c.
+Proof. unfold qdot, qsubs. simpl. ring. Qed.
+
+Lemma bil_qsubs l u al c :
+  bil l (qsubs u al c) (qsubs u al c) = bil l u u - 2 * al * bil l u c + al * al * bil l c c.
+Proof. induction l as [|[x q] l IH]; simpl; [ring|]. rewrite IH, !qdot_qsubs. ring. Qed.
+
+(* Cauchy-Schwarz in R^4 through Lagrange's identity *)
+Lemma cs4 (p x : Q) : qdot p x * qdot p x <= qnorm2 p * qnorm2 x.
+Proof.
+  destruct p as [a b c d]. destruct x as [e f g h]. unfold qdot, qnorm2. simpl.
+  assert (E : (a * a + b * b + c * c + d * d) * (e * e + f * f + g * g + h * h) - (a * e + b * f + c * g + d * h) * (a * e + b * f + c * g + d * h)
+              = (a * f - b * e)² + (a * g - c * e)² + (a * h - d * e)² + (b * g - c * f)² + (b * h - d * f)² + (c * h - d * g)²)
+    by (unfold Rsqr; ring).
+  pose proof (Rle_0_sqr (a * f - b * e)). pose proof (Rle_0_sqr (a * g - c * e)). pose proof (Rle_0_sqr (a * h - d * e)).
+  pose proof (Rle_0_sqr (b * g - c * f)). pose proof (Rle_0_sqr (b * h - d * f)). pose proof (Rle_0_sqr (c * h - d * g)). lra.
+Qed.
+
+(* one symmetric pair, seen from a direction x orthogonal to the centre *)
+Lemma pair_bound (a qc x : Q) : qdot qc x = 0 -> qnorm2 qc = 1 ->
+  qdot (qmul ROps a qc) x * qdot (qmul ROps a qc) x +
+  qdot (qmul ROps (qconj ROps a) qc) x * qdot (qmul ROps (qconj ROps a) qc) x
+  <= 2 * (qnorm2 a - qw a * qw a) * qnorm2 x.
+Proof.
+  intros Ho Hq. set (p := qmul ROps (mkQR 0 (qx a) (qy a) (qz a)) qc).
+  assert (E1 : qdot (qmul ROps a qc) x = qw a * qdot qc x + qdot p x)
+    by (unfold p; rewrite !qmul_R; unfold qdot; simpl; ring).
+  assert (E2 : qdot (qmul ROps (qconj ROps a) qc) x = qw a * qdot qc x - qdot p x)
+    by (unfold p; rewrite !qmul_R, qconj_R; unfold qdot; simpl; ring).
+  assert (Ep : qnorm2 p = (qnorm2 a - qw a * qw a) * qnorm2 qc)
+    by (unfold p; rewrite qmul_R; unfold qnorm2; simpl; ring).
+  rewrite E1, E2, Ho. pose proof (cs4 p x) as Hcs. rewrite Ep, Hq in Hcs. lra.
+Qed.
+
+Fixpoint vcoef (ws : list R) (al : list Q) : R :=
+  match ws, al with
+  | x :: ws', a :: al' => x * (qnorm2 a - qw a * qw a) + vcoef ws' al'
+  | _, _ => 0
+  end.
+
+Lemma sym_rayleigh_bound ws al (qc x : Q) : qdot qc x = 0 -> qnorm2 qc = 1 -> Forall (fun w => 0 < w) ws ->
+  bil (combine ws (map (fun a => qmul ROps a qc) al)) x x +
+  bil (combine ws (map (fun a => qmul ROps (qconj ROps a) qc) al)) x x <= 2 * vcoef ws al * qnorm2 x.
+Proof.
+  intros Ho Hq Hw. revert al. induction Hw as [|w ws Hw0 Hws IH]; intros [|a al]; simpl; try lra.
+  specialize (IH al). pose proof (pair_bound a qc x Ho Hq) as Hp.
+  set (B1 := bil (combine ws (map (fun a => qmul ROps a qc) al)) x x) in *.
+  set (B2 := bil (combine ws (map (fun a => qmul ROps (qconj ROps a) qc) al)) x x) in *.
+  set (d1 := qdot (qmul ROps a qc) x) in *. set (d2 := qdot (qmul ROps (qconj ROps a) qc) x) in *.
+  set (g := qnorm2 a - qw a * qw a) in *. set (X := qnorm2 x) in *. clearbody B1 B2 d1 d2 g X. nra.
+Qed.
+
+Definition tight (a : Q) : Prop := qnorm2 a = 1 /\ 1 / 2 < qw a * qw a.
+
+Lemma coef_le ws al : Forall (fun w => 0 < w) ws -> Forall tight al -> vcoef ws al <= sym_coef ws al.
+Proof.
+  intros Hw. revert al. induction Hw as [|w ws Hw0 Hws IH]; intros [|a al] Ha; simpl; try lra.
+  inversion Ha as [|a' al' [Hn Ht] Hal]; subst. specialize (IH al Hal). rewrite Hn. nra.
+Qed.
+
+Lemma coef_lt ws al : Forall (fun w => 0 < w) ws -> Forall tight al -> ws <> [] -> al <> [] ->
+  vcoef ws al < sym_coef ws al.
+Proof.
+  intros Hw Ha Hne1 Hne2. destruct ws as [|w ws]; [contradiction|]. destruct al as [|a al]; [contradiction|].
+  simpl. inversion Hw; subst. inversion Ha as [|a' al' [Hn Ht] Hal]; subst.
+  pose proof (coef_le ws al H2 Hal). rewrite Hn. nra.
+Qed.
+
+Lemma eig_osum (w : list R) (qs : list Q) u mu : is_eigvec (outer_sum ROps w qs) u mu ->
+  osum_v (combine w qs) u 0 = mu * qw u /\ osum_v (combine w qs) u 1 = mu * qx u /\
+  osum_v (combine w qs) u 2 = mu * qy u /\ osum_v (combine w qs) u 3 = mu * qz u.
+Proof.
+  intros [E0 [E1 [E2 E3]]].
+  rewrite (mv_ext _ (osum (combine w qs))), mv_osum in E0, E1, E2, E3 by (intros; apply outer_sum_R).
+  auto.
+Qed.
+
+Lemma sumsq4_zero p q r s : p * p + q * q + r * r + s * s = 0 -> p = 0 /\ q = 0 /\ r = 0 /\ s = 0.
+Proof. intros H. repeat split; nra. Qed.
+
+Lemma qsubs_zero (u : Q) al (c : Q) : qnorm2 (qsubs u al c) = 0 -> u = qscale al c.
+Proof.
+  unfold qnorm2, qsubs. simpl. intros H. apply sumsq4_zero in H. destruct H as [H0 [H1 [H2 H3]]].
+  destruct u as [a b c' d]. unfold qscale. simpl in *. f_equal; lra.
+Qed.
+
+Lemma sym_gap (qc : Q) w0 ws al :
+  qnorm2 qc = 1 -> length ws = length al -> 0 <= w0 -> Forall (fun w => 0 < w) ws -> Forall tight al ->
+  (0 < w0 \/ al <> []) ->
+  forall u mu, is_eigvec (outer_sum ROps (sym_weights w0 ws) (sym_quats qc al)) u mu ->
+               (forall k, u <> qscale k qc) -> mu < w0 + 2 * sym_coef ws al.
+Proof.
+  intros Hq Hlen Hw0 Hws Hal Hne u mu Hu Hnp.
+  set (l := combine (sym_weights w0 ws) (sym_quats qc al)).
+  set (lamc := w0 + 2 * sym_coef ws al).
+  (* eigen equations for u and for the centre *)
+  apply eig_osum in Hu. fold l in Hu. destruct Hu as [U0 [U1 [U2 U3]]].
+  pose proof (sym_centre_eigvec qc w0 ws al Hlen) as Hc. rewrite Hq, Rmult_1_l in Hc.
+  apply eig_osum in Hc. fold l lamc in Hc. destruct Hc as [C0 [C1 [C2 C3]]].
+  set (alpha := qdot qc u).
+  assert (Buc : bil l u qc = mu * alpha).
+  { rewrite <- dot_osum_v, U0, U1, U2, U3. unfold alpha, qdot. ring. }
+  assert (Bcu : bil l qc u = lamc * alpha).
+  { rewrite <- dot_osum_v, C0, C1, C2, C3. unfold alpha, qdot. ring. }
+  assert (Buu : bil l u u = mu * qnorm2 u).
+  { rewrite <- dot_osum_v, U0, U1, U2, U3. unfold qnorm2. ring. }
+  assert (Bcc : bil l qc qc = lamc).
+  { rewrite <- dot_osum_v, C0, C1, C2, C3. unfold qnorm2 in Hq. replace lamc with (lamc * (qw qc * qw qc + qx qc * qx qc + qy qc * qy qc + qz qc * qz qc)) at 5 by (rewrite Hq; ring). ring. }
+  assert (Hsym : mu * alpha = lamc * alpha) by (rewrite <- Buc, <- Bcu; apply bil_sym).
+  set (x := qsubs u alpha qc).
+  assert (Hox : qdot qc x = 0).
+  { unfold x. rewrite qdot_qsubs. fold alpha. replace (qdot qc qc) with 1 by (unfold qdot; unfold qnorm2 in Hq; lra). ring. }
+  assert (HX : qnorm2 x = qnorm2 u - alpha * alpha).
+  { unfold x, qsubs, qnorm2. simpl. unfold qnorm2 in Hq.
+    replace ((qw u - alpha * qw qc) * (qw u - alpha * qw qc) + (qx u - alpha * qx qc) * (qx u - alpha * qx qc) +
+             (qy u - alpha * qy qc) * (qy u - alpha * qy qc) + (qz u - alpha * qz qc) * (qz u - alpha * qz qc))
+      with (qw u * qw u + qx u * qx u + qy u * qy u + qz u * qz u - 2 * alpha * qdot qc u
+            + alpha * alpha * (qw qc * qw qc + qx qc * qx qc + qy qc * qy qc + qz qc * qz qc)) by (unfold qdot; ring).
+    rewrite Hq. fold alpha. ring. }
+  assert (Bxx : bil l x x = mu * qnorm2 x).
+  { unfold x. rewrite bil_qsubs, Buu, Buc, Bcc. fold x. rewrite HX.
+    replace (alpha * alpha * lamc) with (alpha * (lamc * alpha)) by ring. rewrite <- Hsym. ring. }
+  (* the Rayleigh quotient of x only sees the vector parts *)
+  assert (Hb : bil l x x <= 2 * vcoef ws al * qnorm2 x).
+  { unfold l, sym_weights, sym_quats. simpl. rewrite combine_app_eq by now rewrite map_length.
+    rewrite bil_app, Hox. pose proof (sym_rayleigh_bound ws al qc x Hox Hq Hws). lra. }
+  assert (Hxpos : 0 < qnorm2 x).
+  { destruct (Req_dec (qnorm2 x) 0) as [E|E].
+    - exfalso. apply (Hnp alpha). now apply qsubs_zero.
+    - assert (0 <= qnorm2 x) by (unfold qnorm2; nra). lra. }
+  assert (Hmu : mu <= 2 * vcoef ws al).
+  { apply (Rmult_le_reg_r (qnorm2 x)); [assumption | lra]. }
+  pose proof (coef_le ws al Hws Hal) as Hle. unfold lamc.
+  destruct Hne as [Hp|Hp]; [lra|].
+  assert (ws <> []) by (intros ->; destruct al; [contradiction | discriminate]).
+  pose proof (coef_lt ws al Hws Hal H Hp). lra.
+Qed.
+
+(* full statement for non-negative weights: the mean of a symmetric set is +- its centre *)
+Lemma mean_symmetric eig (qc : Q) w0 ws al :
+  qnorm2 qc = 1 -> length ws = length al -> 0 <= w0 -> Forall (fun w => 0 < w) ws -> Forall tight al ->
+  (0 < w0 \/ al <> []) ->
+  max_eig_contract (outer_sum ROps (sym_weights w0 ws) (sym_quats qc al)) (qmean ROps eig (sym_weights w0 ws) (sym_quats qc al)) ->
+  qmean ROps eig (sym_weights w0 ws) (sym_quats qc al) = qc \/
+  qmean ROps eig (sym_weights w0 ws) (sym_quats qc al) = qneg qc.
+Proof.
+  intros Hq Hlen Hw0 Hws Hal Hne Hc. apply (mean_symmetric_partial eig qc w0 ws al Hq Hlen Hc).
+  now apply sym_gap.
+Qed.
+
+(* non-vacuity of the symmetric-set premises with a non-empty list: centre 1, one pair (4/5, +-3/5, 0, 0) *)
+Lemma example_symmetric_premises :
+  let qc := Q1 in let al := [mkQR (4/5) (3/5) 0 0] in let ws := [1/4] in let w0 := 1/2 in
+  qnorm2 qc = 1 /\ length ws = length al /\ 0 <= w0 /\ Forall (fun w => 0 < w) ws /\ Forall tight al /\ (0 < w0 \/ al <> []) /\
+  sym_quats qc al = [Q1; mkQR (4/5) (3/5) 0 0; mkQR (4/5) (-(3/5)) 0 0] /\ w0 + 2 * sym_coef ws al = 41/50.
+Proof.
+  intros qc al ws w0. unfold qc, al, ws, w0.
+  split; [unfold qnorm2; simpl; lra|]. split; [reflexivity|]. split; [lra|].
+  split; [repeat constructor; lra|]. split; [repeat constructor; unfold qnorm2; simpl; lra|].
+  split; [right; discriminate|]. split.
+  - unfold sym_quats. cbn [map app]. rewrite !qmul_R, qconj_R. unfold Q1. simpl.
+    f_equal. f_equal; [f_equal; lra|]. f_equal. f_equal; lra.
+  - simpl. lra.
+Qed.
